@@ -6,7 +6,7 @@ cd /verif
 OUT=$(mktemp -d /tmp/pyvc_seed_out.XXXXXX)
 git -C /repo apply /verif/seeded/$ID/patch.diff || { echo "patch does not apply"; rm -rf $OUT; exit 9; }
 for P in "$@"; do
-  PYVC_OUT=$OUT ./check $P 2>&1 | grep -v conda | grep -E "^\[|VIOLATION|UNDECIDED|FAULT" | cut -c1-230 | head -6
+  PYVC_OUT=$OUT ./check $P 2>&1 | grep -v conda | grep -E "^\[|VIOLATION|UNDECIDED|FAULT" | cut -c1-230 | head -14
   echo "exit[$P]=${PIPESTATUS[0]}"
 done
 git -C /repo checkout -- .
